@@ -67,6 +67,7 @@ func (area) Run(c *core.Ctx) error {
 				witnessInfluxInf(c)
 				witnessInfluxMaxTags(c)
 				witnessInfluxSuffixPanic(c)
+				witnessNoMidnight(c)
 			case i%4 == 0:
 				caseBatch(c, r)
 			case i%8 == 3:
@@ -79,6 +80,10 @@ func (area) Run(c *core.Ctx) error {
 				casePooledHistory(c, r)
 			case i%16 == 14:
 				caseProtoHistory(c, r)
+			case i%16 == 6:
+				caseInfluxStream(c, r)
+			case i%32 == 26:
+				caseDSTFamilies(c, r)
 			case i%8 == 7:
 				caseSingle(c, r, 120) // malformed stream
 			default:
